@@ -70,6 +70,11 @@ package main
 //@   ensures [nothingToDo] svcRo == nil && !old(c.ips.allocated[name] != nil && c.ips.allocated[name].pool != "") ==> result == controllers.SyncStateSuccess && (forall s string :: c.ips.allocated[s] == old(c.ips.allocated[s]))
 //@   assert before UpdateStatus: [writesConverged] arg0 == svc
 //@   exit assert [writeFailureRetried] err != nil ==> result == controllers.SyncStateError
+// a Service that held addresses, holds none after converging and whose old addresses still lie in a pool has freed
+// something another Service may be waiting for: every Service is re-processed (C07), whatever else the convergence said
+//@   assert before DeepCopy#2: [releaseAsksResync] len(prevIPs) != 0 && !(c.ips.allocated[name] != nil && c.ips.allocated[name].pool != "") && (exists n string :: (n in c.ips.pools.ByName) && allocator.AllInPool(c.ips.pools.ByName[n], prevIPs)) ==> syncStateRes == controllers.SyncStateReprocessAll
+//@   assert before DeepCopy#2: [keyChangeAsksResync] prevAllocKey != newAllocKey ==> syncStateRes == controllers.SyncStateReprocessAll
+//@   exit assert [reported] result == syncStateRes || result == controllers.SyncStateError
 //@   ensures [noConfig] svcRo != nil && old(c.pools == nil || c.pools.ByName == nil) ==> result == controllers.SyncStateSuccess && (forall s string :: c.ips.allocated[s] == old(c.ips.allocated[s]))
 
 // SetPools (controller): a usable configuration is handed to the allocator (which keeps every still admissible
